@@ -43,11 +43,50 @@ def build(c: Contract) -> Engine:
         E.spec_mode -= 1
     E.entry = State(dict(st.env), dict(st.heap), list(st.pc))
     E.canaries.append(("canary:entry", list(st.pc)))
-    ends = E.exec_block(source.body_without_docstring(fn), st)
+    ends = exec_with_ghosts(E, source.body_without_docstring(fn), st, getattr(c, "ghost_at", None) or {})
     for e in ends:
         E.exits.append(Exit("return", e, None, line=fn.end_lineno))
     finish(E)
     return E
+
+
+def exec_with_ghosts(E, body, st, hooks):
+    """contract.ghost_at = {i: [item, ...]}: before top-level body statement i (len(body) = end) each item is proved and
+    then assumed.  An item is a DSL string (ghost assert) or a dict {induct, lo, hi, stmt} (ghost lemma by induction:
+    obligations base and step; then `forall n in [lo, hi]: stmt` is assumed)."""
+    if not hooks:
+        return E.exec_block(body, st)
+    states = [st]
+    for i in range(len(body) + 1):
+        for j, item in enumerate(hooks.get(i, [])):
+            for stx in states:
+                tag = "ghost@%d#%d" % (i, j)
+                if isinstance(item, str):
+                    g = toz(E.truth(E.evs(item, stx)))
+                    E.obl.append(Obligation("assert:" + tag, list(stx.pc), g, E.cur_line, "assert"))
+                    stx.pc.append(g)
+                    continue
+                if "rebind" in item:
+                    # {"rebind": {"y": "expr"}}: prove local y == expr, then continue with the (simpler) term expr for y
+                    for nm, ex in item["rebind"].items():
+                        val = E.evs(ex, stx)
+                        g = toz(E.compare(ast.Eq(), stx.env[nm], val))
+                        E.obl.append(Obligation("assert:%s/rebind:%s" % (tag, nm), list(stx.pc), g, E.cur_line, "assert"))
+                        stx.env[nm] = val
+                    continue
+                n = E.fresh(item["induct"], z3.IntSort())
+                lo = toz(E.evs(str(item.get("lo", 0)), stx))
+                hi = toz(E.evs(str(item["hi"]), stx))
+                P = lambda at: toz(E.truth(E.evs(item["stmt"], stx, {item["induct"]: at})))
+                E.obl.append(Obligation("lemma:%s/base" % tag, list(stx.pc), P(lo), E.cur_line, "lemma"))
+                E.obl.append(Obligation("lemma:%s/step" % tag, list(stx.pc) + [n >= lo, n < hi, P(n)], P(n + 1), E.cur_line, "lemma"))
+                wrapped = "forall(%s, (%s) + 1, lambda %s: %s)" % (item.get("lo", 0), item["hi"], item["induct"], item["stmt"])
+                stx.pc.append(toz(E.truth(E.evs(wrapped, stx))))
+        if i < len(body):
+            states = E.exec_block([body[i]], states)
+            if not states:
+                break
+    return states
 
 
 def build_corollary(cor) -> Engine:
@@ -165,6 +204,8 @@ def all_axioms(E: Engine, proven_lemmas, internal_for=None):
     for key, (f, a) in E.sum_inst.items():
         if key not in E.spec_inst:
             ax.extend(a)
+    from .engine import trunc_axioms
+    ax.extend(trunc_axioms())
     ma = math_axioms()
     for m in sorted(set(getattr(E.c, "uses_math", []) or [])):      # opt-in: sqrt(a)>=0, sqrt(a)^2=a, exp>0
         ax.extend(ma.get(m, []))
@@ -334,7 +375,7 @@ def verify(key: str, second_opinion=False, timeout_ms=None):
             out["obligations"].append(o)
         # vacuity canaries: `False` must NOT be derivable
         for name, hyps in E.canaries:
-            s, r = _solve(ax + hyps, z3.BoolVal(False), 1500); r = str(r); ms = 0
+            s, r = _solve(ax + hyps, z3.BoolVal(False), 400); r = str(r); ms = 0
             out["obligations"].append({"name": name, "result": "reachable" if r != "unsat" else "VACUOUS",
                                        "ms": ms, "kind": "canary", "line": None})
     except Exception:
